@@ -7,7 +7,7 @@ Import ListNotations.
 Local Open Scope N_scope.
 
 Definition vs3 : list N := [1; 2; 3].
-Definition s0 : sstate := mkS (mkG (fun _ => []) (fun _ => false)) (fun _ => 0) [] [] (fun _ => []) (fun _ => None) [].
+Definition s0 : sstate := mkS (mkG (fun _ => []) (fun _ => false)) (fun _ => 0) [] [] (fun _ => []) (fun _ => None) [] (fun _ => false).
 
 Ltac dec := cbv; try congruence; try reflexivity; try lia.
 
@@ -20,17 +20,17 @@ Proof.
   assert (R1 := areach_step vs3 _ _ R0 (AProto vs3 _ _ [] (SCampaign vs3 s0 1 1 ltac:(dec)))).
   match type of R1 with areach _ (?s, _) => set (s1 := s) in R1 end.
   eassert (V1 : sstep vs3 s1 _).
-  { apply (SVote vs3 s1 1 1 1); [dec|dec|dec|intros r []|right; split; dec]. }
+  { apply (SVote vs3 s1 1 1 1); [dec|dec|dec|dec|intros r []|right; split; dec]. }
   assert (R2 := areach_step vs3 _ _ R1 (AProto vs3 _ _ [] V1)). clear V1.
   match type of R2 with areach _ (?s, _) => set (s2 := s) in R2 end.
   eassert (V2 : sstep vs3 s2 _).
-  { apply (SVote vs3 s2 2 1 1); [dec|dec|dec| |right; split; dec].
+  { apply (SVote vs3 s2 2 1 1); [dec|dec|dec|dec| |right; split; dec].
     intros r [E|[]] A B. subst r. reflexivity. }
   assert (R3 := areach_step vs3 _ _ R2 (AProto vs3 _ _ [] V2)). clear V2.
   match type of R3 with areach _ (?s, _) => set (s3 := s) in R3 end.
   (* it becomes leader of term 1 and appends payload 7 *)
   eassert (B : sstep vs3 s3 _).
-  { eapply (SBecomeLeader vs3 s3 1 1); [dec|dec|unfold majority; cbv; lia| |reflexivity].
+  { eapply (SBecomeLeader vs3 s3 1 1); [dec|dec|dec|unfold majority; cbv; lia| |reflexivity].
     apply (BecomeLeader (sg s3) 1 1). dec. }
   assert (R4 := areach_step vs3 _ _ R3 (AProto vs3 _ _ [] B)). clear B.
   match type of R4 with areach _ (?s, _) => set (s4 := s) in R4 end.
@@ -41,7 +41,16 @@ Proof.
   (* node 2 accepts the entry; both acknowledge; the leadership commits position 0 *)
   eassert (F : sstep vs3 s5 _).
   { eapply (SFollowerAppend vs3 s5 2 1 0%nat 1%nat 0); [dec|dec|dec|dec|reflexivity]. }
-  assert (R6 := areach_step vs3 _ _ R5 (AProto vs3 _ _ [] F)). clear F.
+  assert (R6a := areach_step vs3 _ _ R5 (AProto vs3 _ _ [] F)). clear F.
+  match type of R6a with areach _ (?s, _) => set (s6a := s) in R6a end.
+  (* node 2 crashes before acknowledging, loses the entry, and accepts it again after the restart *)
+  eassert (Z : sstep vs3 s6a _).
+  { eapply (SLose vs3 s6a 2 0%nat); [intros t k' []|reflexivity]. }
+  assert (R6b := areach_step vs3 _ _ R6a (AProto vs3 _ _ [] Z)). clear Z.
+  match type of R6b with areach _ (?s, _) => set (s6b := s) in R6b end.
+  eassert (F : sstep vs3 s6b _).
+  { eapply (SFollowerAppend vs3 s6b 2 1 0%nat 1%nat 0); [dec|dec|dec|dec|reflexivity]. }
+  assert (R6 := areach_step vs3 _ _ R6b (AProto vs3 _ _ [] F)). clear F.
   match type of R6 with areach _ (?s, _) => set (s6 := s) in R6 end.
   eassert (K1 : sstep vs3 s6 _) by (apply (SAck vs3 s6 1 1 1%nat); dec).
   assert (R7 := areach_step vs3 _ _ R6 (AProto vs3 _ _ [] K1)). clear K1.
